@@ -304,6 +304,23 @@ def run(index, tier="quick", seed=0) -> Result:
             res.ok("SORT-1", k)
     from ..parallel import report as _copy1
     _copy1(res, index, lambda f: f['cls'] in ('Circle', 'Ellipse', 'Sphere', 'Ellipsoid') and f['top'] not in ('is_inside', 'distance_to_surface', 'compute_form_factor_amplitude', 'to_hoomd'))
+    # PAX-2: the parallel-axis shift is applied once, to a tensor taken about the centre.  For the curved classes the centroidal
+    # tensor is a closed form in the size attributes only; a tensor that already depends on the centroid (e.g. built from the
+    # polar moment, which contains area * |c|^2) and is then passed through translate_inertia_tensor is shifted twice.
+    for cname_ in CURVED:
+        cls_ = index.cls(cname_)
+        pm_ = index.effective_prop(cls_, "inertia_tensor")
+        if pm_ is None or pm_.getter is None:
+            continue
+        rg_ = Interp(index).run_entry(pm_.getter, cls_)
+        shifts = [e_ for e_ in rg_["events"] if e_.type == "enter" and not e_.entry and e_.callee.name == "translate_inertia_tensor"]
+        k_ = f"{cname_}.inertia_tensor"
+        dbl = [e_ for e_ in shifts if len(e_.argvals) > 1 and any(a_ == "_centroid" for (_o, a_) in e_.argvals[1].deps)]
+        if dbl:
+            res.bad("PAX-2", k_ + ":shifted-twice", dbl[0].where(), f"{k_}: the tensor handed to translate_inertia_tensor already depends on the centre "
+                    f"(`{dbl[0].src()[:60]}`): the parallel-axis term is added twice for every shape that is not at the origin")
+        else:
+            res.ok("PAX-2", k_, nontrivial=bool(shifts))
     # DTYPE-1: centres given as integers (`center=(1, -2, 3)`) are stored as integer arrays when the setter does not fix
     # the dtype; an in-place float update of an array derived from them truncates (or raises) instead of computing
     from ..interp import Interp as _Interp
